@@ -3,6 +3,7 @@
 
 use crate::values::{Codec, Ty};
 use sqldatetime::{Date, IntervalDT, IntervalYM, OracleDate, Time, Timestamp};
+use bincode::Options;
 use std::io::{Read, Write};
 
 #[derive(Debug, Clone, PartialEq, Eq)]
@@ -44,6 +45,8 @@ fn ser<T: serde::Serialize, W: Write>(v: &T, codec: Codec, w: W) -> Result<(), S
     match codec {
         Codec::Json => serde_json::to_writer(w, v).map_err(|e| e.to_string()),
         Codec::Bincode => bincode::serialize_into(w, v).map_err(|e| e.to_string()),
+        Codec::BincodeVar => bincode::options().serialize_into(w, v).map_err(|e| e.to_string()),
+        Codec::BincodeBe => bincode::options().with_fixint_encoding().with_big_endian().serialize_into(w, v).map_err(|e| e.to_string()),
     }
 }
 
@@ -51,6 +54,8 @@ fn de<T: serde::de::DeserializeOwned, R: Read>(codec: Codec, r: R) -> Result<T, 
     match codec {
         Codec::Json => serde_json::from_reader(r).map_err(|_| ()),
         Codec::Bincode => bincode::deserialize_from(r).map_err(|_| ()),
+        Codec::BincodeVar => bincode::options().deserialize_from(r).map_err(|_| ()),
+        Codec::BincodeBe => bincode::options().with_fixint_encoding().with_big_endian().deserialize_from(r).map_err(|_| ()),
     }
 }
 
@@ -376,9 +381,132 @@ pub fn derived_operands(kind: &str) -> (Ty, Ty) {
 // Containers: several values in ONE stream.
 // ---------------------------------------------------------------------------
 
+// Values embedded in larger structures, as application code has them. The derived
+// impls drive the crate's visitors through serde's own buffering (`Content`) for
+// flattened structs and tagged / untagged enums, through map-key (de)serializers, and
+// through `serde_json::Value`; text arrives borrowed (`from_slice`), owned (`from_reader`)
+// or escaped.
+
+#[derive(serde::Serialize, serde::Deserialize, PartialEq, Debug, Clone)]
+struct Row<T> {
+    id: u32,
+    v: T,
+    note: String,
+    w: Option<T>,
+}
+
+#[derive(serde::Serialize, serde::Deserialize, PartialEq, Debug, Clone)]
+struct Inner<T> {
+    v: T,
+    w: Option<T>,
+}
+
+#[derive(serde::Serialize, serde::Deserialize, PartialEq, Debug, Clone)]
+struct Flat<T> {
+    id: u32,
+    #[serde(flatten)]
+    inner: Inner<T>,
+}
+
+#[derive(serde::Serialize, serde::Deserialize, PartialEq, Debug, Clone)]
+#[serde(tag = "t")]
+enum Tagged<T> {
+    A { v: T },
+    B { v: T, n: i32 },
+}
+
+#[derive(serde::Serialize, serde::Deserialize, PartialEq, Debug, Clone)]
+#[serde(tag = "t", content = "c")]
+enum Adjacent<T> {
+    One(T),
+    Two(T, T),
+}
+
+#[derive(serde::Serialize, serde::Deserialize, PartialEq, Debug, Clone)]
+enum External<T> {
+    One(T),
+    Rec { v: T },
+    Unit,
+}
+
+#[derive(serde::Serialize, serde::Deserialize, PartialEq, Debug, Clone)]
+#[serde(untagged)]
+enum Untagged<T> {
+    Pair { a: T, b: T },
+    Single(T),
+}
+
+fn rt<V>(what: &str, v: &V, codec: Codec) -> Result<(), (&'static str, String)>
+where
+    V: serde::Serialize + serde::de::DeserializeOwned + PartialEq + std::fmt::Debug,
+{
+    let mut buf: Vec<u8> = Vec::new();
+    ser(v, codec, &mut buf).map_err(|e| ("serialize_failed", format!("serializing {what} failed: {e}")))?;
+    let back: V = de(codec, &buf[..]).map_err(|_| ("roundtrip", format!("{what} does not decode from {}", String::from_utf8_lossy(&buf))))?;
+    if &back != v {
+        return Err(("roundtrip", format!("{what} {:?} came back as {:?}", v, back)));
+    }
+    if codec == Codec::Json {
+        // borrowed text (from_slice), a serde_json::Value in between, and the same text with every
+        // character of the strings escaped (so nothing can be borrowed from the input)
+        let back: V = serde_json::from_slice(&buf).map_err(|e| ("roundtrip", format!("{what} does not decode from a slice: {e}")))?;
+        if &back != v {
+            return Err(("roundtrip", format!("{what} {:?} came back from a slice as {:?}", v, back)));
+        }
+        let val = serde_json::to_value(v).map_err(|e| ("serialize_failed", format!("{what} to serde_json::Value failed: {e}")))?;
+        let back: V = serde_json::from_value(val).map_err(|e| ("roundtrip", format!("{what} does not decode from a serde_json::Value: {e}")))?;
+        if &back != v {
+            return Err(("roundtrip", format!("{what} {:?} came back through a serde_json::Value as {:?}", v, back)));
+        }
+        let mut esc = String::with_capacity(buf.len() * 2);
+        let mut in_str = false;
+        for &b in &buf {
+            let c = b as char;
+            if c == '"' {
+                in_str = !in_str;
+                esc.push(c);
+            } else if in_str && (c == '+' || c == '-' || c == ':' || c == ' ') {
+                esc.push_str(&format!("\\u{:04x}", b));
+            } else {
+                esc.push(c);
+            }
+        }
+        let back: V = serde_json::from_str(&esc).map_err(|e| ("roundtrip", format!("{what} does not decode from {esc}: {e}")))?;
+        if &back != v {
+            return Err(("roundtrip", format!("{what} {:?} came back from escaped text as {:?}", v, back)));
+        }
+    }
+    Ok(())
+}
+
+fn embedded<T>(vals: &[T], codec: Codec) -> Result<(), (&'static str, String)>
+where
+    T: serde::Serialize + serde::de::DeserializeOwned + PartialEq + Copy + std::fmt::Debug + Ord,
+{
+    let a = vals[0];
+    let b = vals[vals.len() - 1];
+    let c = vals[vals.len() / 2];
+    rt("struct field", &Row { id: 7, v: a, note: "n".to_string(), w: Some(b) }, codec)?;
+    rt("struct field", &Row { id: 8, v: b, note: String::new(), w: None }, codec)?;
+    rt("externally tagged enum", &vec![External::One(a), External::Rec { v: b }, External::Unit], codec)?;
+    let map: std::collections::BTreeMap<T, T> = vals.iter().map(|v| (*v, c)).collect();
+    rt("map key and value", &map, codec)?;
+    if codec == Codec::Json {
+        // shapes that need a self-describing format
+        rt("flattened struct", &Flat { id: 9, inner: Inner { v: a, w: Some(b) } }, codec)?;
+        rt("flattened struct", &Flat { id: 9, inner: Inner { v: b, w: None } }, codec)?;
+        rt("internally tagged enum", &vec![Tagged::A { v: a }, Tagged::B { v: b, n: -1 }], codec)?;
+        rt("adjacently tagged enum", &vec![Adjacent::One(a), Adjacent::Two(b, c)], codec)?;
+        rt("untagged enum", &vec![Untagged::Single(a), Untagged::Pair { a: b, b: c }], codec)?;
+        let by_name: std::collections::BTreeMap<String, Option<T>> = vals.iter().enumerate().map(|(i, v)| (format!("k{i}"), if i % 2 == 0 { Some(*v) } else { None })).collect();
+        rt("map of options", &by_name, codec)?;
+    }
+    Ok(())
+}
+
 fn table_generic<T>(vals: Vec<T>, codec: Codec) -> Result<(), (&'static str, String)>
 where
-    T: serde::Serialize + serde::de::DeserializeOwned + PartialEq + Copy + std::fmt::Debug,
+    T: serde::Serialize + serde::de::DeserializeOwned + PartialEq + Copy + std::fmt::Debug + Ord,
 {
     const SENTINEL: u32 = 0xA5C3_5A3C;
     let r = std::panic::catch_unwind(std::panic::AssertUnwindSafe(|| -> Result<(), (&'static str, String)> {
@@ -407,7 +535,7 @@ where
         if back != tup {
             return Err(("roundtrip", format!("tuple (value, sentinel, value) came back as {:?}", back)));
         }
-        Ok(())
+        embedded(&vals, codec)
     }));
     match r {
         Ok(x) => x,
